@@ -109,6 +109,20 @@ class C20(Oracle):
             if r is not None:
                 w.violation('C20', 'write-through', st, r, culprit)
                 return
+        # -- chained assignment x[i][j] = v: the transient view and the root agree afterwards
+        t = st.extra.get('chain_transient')
+        if t is not None and st.outcome == 'ok' and st.wthrough is not None and isinstance(st.index, tuple):
+            try:
+                via_t = np.asarray(np.asarray(t.val)[st.index[1]]).ravel().tolist()
+                via_x = np.asarray(np.asarray(w.slots[st.dest].obj.val)[st.index[0]][st.index[1]]).ravel().tolist()
+            except Exception:
+                via_t = via_x = None
+            if via_t is not None and not (len(via_t) == len(via_x) and all(same(a, b) for a, b in zip(via_t, via_x))):
+                w.violation('C20', 'write-through', st,
+                            {'what': 'x[i][j] = v did not reach x', 'i': repr(st.index[0]), 'j': repr(st.index[1]),
+                             'root_holds': short(via_x), 'transient_view_holds': short(via_t)}, culprit)
+                return
+            w.bump('chained_setitem_root_checked')
         # -- structure of new objects
         if st.outcome == 'ok':
             for n in st.new:
@@ -603,9 +617,39 @@ class C04(Oracle):
                 vals = None
             elif any(abs(Q.scale(v, nf)) >= (1 << 62) or abs(v) >= (1 << 53) for v in vals[1]):
                 w.bump('c04_write_beyond_input_domain_judged')
+        # ---- fault F8: a callback of this object wrote to it while this write was in flight
+        sw = (st.extra.get('selfwrites') or [None])[0]
+        inner = None
+        if sw is not None:
+            w.bump('c04_selfwrite_steps')
+            if not sw.get('done') or st.outcome != 'ok' or vals is None or not sto.judge_flags or \
+                    sto.arith is not None or sto.target != 'dest' or sw['fmt'] != tuple(fmt):
+                vals = None       # only stickiness is judged
+            else:
+                try:
+                    ish, iflat = V.exact(sw['val'], fmt)
+                    if not all(abs(Q.scale(v, nf)) < (1 << 62) and abs(v) < (1 << 53) and
+                               not isinstance(v, complex) for v in iflat):
+                        raise ValueError('inner write beyond the input domain')
+                    igot = np.asarray(sw['inner_val'])
+                    iin = np.broadcast_to(obj_array(iflat, ish), np.shape(igot))
+                    igl = igot.ravel().tolist()
+                    iil = np.asarray(iin, dtype=object).ravel().tolist()
+                    if not igl or not all(type(c) is int for c in igl):
+                        raise ValueError('inner storage')
+                    ird = [Q.rnd(Q.scale(v, nf), cfg['rounding']) for v in iflat]
+                    lo_, hi_ = Q.bounds(s, nw)
+                    inner = {'overflow': any(r > hi_ for r in ird), 'underflow': any(r < lo_ for r in ird),
+                             'inaccuracy': any(Q.unscale(c, nf) != v for c, v in zip(igl, iil))}
+                except Exception:
+                    vals = None
         if vals is not None and sto.judge_flags:
             try:
                 got = np.asarray(tgt.val)
+                if sw is not None and sw['site'] in ('on_status_inaccuracy', 'on_value_change'):
+                    # the handler ran after this write's store: what this write stored is what the
+                    # object held when the handler was entered
+                    got = np.asarray(sw['entry_val'])
                 if sto.region is not None:
                     got = got[sto.region] if not isinstance(sto.region, tuple) or sto.route != 'setitem_chain' \
                         else got[sto.region[0]][sto.region[1]]
@@ -646,8 +690,10 @@ class C04(Oracle):
             if ovf_now or udf_now:
                 w.bump('probe_flag_raising_write')
             now = {'overflow': ovf_now, 'underflow': udf_now, 'inaccuracy': inacc_now}
+            if inner is not None:
+                w.bump('c04_selfwrite_judged')
             for f in FLAGS:
-                want = pflags.get(f, False) or now[f]
+                want = pflags.get(f, False) or now[f] or bool(inner and inner[f])
                 if f == 'inaccuracy' and prop_inacc:
                     want = True
                 ok = post[f] == want
@@ -665,6 +711,12 @@ class C04(Oracle):
             if sto.judge_cb and sto.target == 'dest' and cbs:
                 exp = {'on_status_overflow': int(ovf_now), 'on_status_underflow': int(udf_now),
                        'on_status_inaccuracy': int(inacc_now), 'on_value_change': 1}
+                if inner is not None:
+                    # two writes happened on this object in this step: each is owed its own notifications
+                    exp = {'on_status_overflow': exp['on_status_overflow'] + int(inner['overflow']),
+                           'on_status_underflow': exp['on_status_underflow'] + int(inner['underflow']),
+                           'on_status_inaccuracy': exp['on_status_inaccuracy'] + int(inner['inaccuracy']),
+                           'on_value_change': 2}
                 for cid in cbs:
                     if cid < 0 or cid in st.extra.get('f7_cids', ()):
                         continue    # (a callback that unregistered itself during this write is owed nothing more)
